@@ -12,11 +12,6 @@ let n_of_int i = n_of_bz (BZ.of_int i)
 let n_to_int x = BZ.to_int (n_to_bz x)
 let n_of_string s = n_of_bz (BZ.of_string s)
 let n_to_string x = BZ.to_string (n_to_bz x)
-let z_of_bz (v : BZ.t) : z =
-  if BZ.sign v = 0 then Z0 else if BZ.sign v > 0 then Zpos (pos_of_bz v) else Zneg (pos_of_bz (BZ.neg v))
-let z_to_bz = function Z0 -> BZ.zero | Zpos p -> pos_to_bz p | Zneg p -> BZ.neg (pos_to_bz p)
-let z_of_string s = z_of_bz (BZ.of_string s)
-let z_to_string x = BZ.to_string (z_to_bz x)
 let rec nat_of_int i = if i <= 0 then O else S (nat_of_int (i - 1))
 let rec nat_to_int = function O -> 0 | S k -> 1 + nat_to_int k
 
